@@ -285,3 +285,29 @@ time_listed!(time_listed_midnight, 0, 0, 0, 0);
 time_listed!(time_listed_one_nano, 0, 0, 0, 1);
 time_listed!(time_listed_general, 12, 34, 56, 789_000_001);
 time_listed!(time_listed_last_nano, 23, 59, 59, 999_999_999);
+
+// the same for the routes the PARSER takes (From<NaiveDateTime>, From<NaiveDate>): a parsed calendar value outside the nanosecond
+// window becomes the second / millisecond date-time of the same instant, without panicking (C16 / C18)
+#[kani::proof]
+fn calendar_conversion_from_naive_bounded() {
+    let d: i64 = kani::any();
+    kani::assume(-4096 <= d && d <= 4096);
+    let naive = chrono::DateTime::<chrono::Utc>::from_timestamp(Y2300_S + d, 0).unwrap().naive_utc();
+    let s: DateTime<unit::Second> = naive.into();
+    assert!(s.into_i64() == Y2300_S + d);
+    let ms: DateTime<unit::Millisecond> = naive.into();
+    assert!(ms.into_i64() == (Y2300_S + d) * 1000);
+    let us: DateTime<unit::Microsecond> = naive.into();
+    assert!(us.into_i64() == (Y2300_S + d) * 1_000_000);
+}
+#[kani::proof]
+fn calendar_conversion_from_naive_date_bounded() {
+    // 2300-01-01 plus a few days
+    let k: i64 = kani::any();
+    kani::assume(0 <= k && k <= 3);
+    let date = chrono::DateTime::<chrono::Utc>::from_timestamp(Y2300_S + k * 86_400, 0).unwrap().date_naive();
+    let s: DateTime<unit::Second> = date.into();
+    assert!(s.into_i64() == Y2300_S + k * 86_400);
+    let ms: DateTime<unit::Millisecond> = date.into();
+    assert!(ms.into_i64() == (Y2300_S + k * 86_400) * 1000);
+}
